@@ -383,7 +383,7 @@ def run_property(a, prop, scratch, t0):
     if 'syntactic' in pl['engines']:
         import syntactic
         obls += syntactic.collect(prop, snap)
-    if 'kani' in pl['engines']:
+    if 'kani' in pl['engines'] and not os.environ.get('VERIF_DEV_NO_KANI'):
         import kanirun
         o, m = kanirun.collect(prop, snap, scratch, a.tier, a.only)
         obls += o
